@@ -62,7 +62,8 @@ Inductive action :=
 | AResolve (tg v occ : nat) (out : nat)   (* resolve the occ-th request received with operation (tg,v) *)
 | ADropReq (tg v occ : nat)
 | AAbort (name : nat)
-| AEvent (tg v : nat).           (* under Core: process_event *)
+| AEvent (tg v : nat)            (* under Core: process_event *)
+| ASpawn (t : task).             (* direct host: cmd.spawn(t) on the outermost command, at any time *)
 
 (* Convenience constructors mirroring the public builders *)
 Definition c_done := CNew TRet [].
